@@ -459,7 +459,7 @@ def nat_whole_resource_steps(h):
     for names in layouts:
         data = [[dict(v=10 * k + j, t='%s%d' % (n, j)) for j in range(2 + k % 2)] for k, n in enumerate(names)]
         sels = [[names[0], names[2]], [names[2], names[0]], re.escape(names[0]) + '|' + re.escape(names[2]), names[0][0] + '.*',
-                [names[0], names[1]], [names[1]], 1, -1, None, [names[-1], names[0]]]
+                [names[0], names[1]], [names[1]], 1, -1, None, [names[-1], names[0]], [], 'matches-nothing', ['not-there']]
 
         def run(extra):
             flow = Flow(*[x for d, n in zip(data, names) for x in ([dict(r) for r in d], update_resource(-1, name=n))], *extra)
@@ -493,7 +493,8 @@ def nat_whole_resource_steps(h):
                     else:
                         h.check(n in out and out[n] == ref[n], P + pname + '.py', (pname, sel, names, n), ref[n][1], out.get(n, (None, None))[1],
                                 note='non-selected resource %r changed' % n)
-                if pname == 'concatenate' and selected:
+                if pname == 'concatenate':
+                    # (a selection that matches nothing concatenates nothing: the target is an empty resource)
                     want = [dict(v=r['v'], t=r['t']) for n in selected for r in ref[n][1]]
                     h.check('merged' in out and out['merged'][1] == want, P + 'concatenate.py::concatenate.func', (sel, names), want,
                             out.get('merged', (None, None))[1])
